@@ -374,17 +374,23 @@ func mergeRead(t *ref.Type, cur, v *ref.StructV, n *node, m fmode, base baseline
 	return out
 }
 
-// writable: every union inside the value has exactly one member (a generated
-// union refuses to be written otherwise).
+// writable: every union inside the value has exactly one member and every set
+// has distinct elements (the generated writer refuses anything else).
 func writable(t *ref.Type, v ref.V, top bool) bool {
 	if v == nil {
 		return true
 	}
 	switch t.Kind {
 	case ref.List, ref.Set:
-		for _, e := range v.(*ref.ListV).E {
+		es := v.(*ref.ListV).E
+		for i, e := range es {
 			if !writable(t.Elem, e, false) {
 				return false
+			}
+			for j := 0; t.Kind == ref.Set && j < i; j++ {
+				if ref.Equal(es[j], e) {
+					return false
+				}
 			}
 		}
 	case ref.Map:
@@ -406,6 +412,51 @@ func writable(t *ref.Type, v ref.V, top bool) bool {
 		}
 	}
 	return true
+}
+
+// dedupSets removes set elements that equal an earlier one.  ref.GenStruct
+// draws distinct elements, but two of them can become one value once optional
+// fields holding their default are dropped (canon) or defaults are spelled out
+// (complete); the generated writer refuses a set with equal elements.
+func dedupSets(t *ref.Type, v ref.V) ref.V {
+	if v == nil {
+		return nil
+	}
+	switch t.Kind {
+	case ref.List, ref.Set:
+		o := &ref.ListV{}
+	next:
+		for _, e := range v.(*ref.ListV).E {
+			d := dedupSets(t.Elem, e)
+			if t.Kind == ref.Set {
+				for _, x := range o.E {
+					if ref.Equal(x, d) {
+						continue next
+					}
+				}
+			}
+			o.E = append(o.E, d)
+		}
+		return o
+	case ref.Map:
+		x := v.(*ref.MapV)
+		o := &ref.MapV{}
+		for i := range x.K {
+			o.K = append(o.K, dedupSets(t.Key, x.K[i]))
+			o.E = append(o.E, dedupSets(t.Elem, x.E[i]))
+		}
+		return o
+	case ref.Struct:
+		x := v.(*ref.StructV)
+		o := ref.NewStruct()
+		for id, fv := range x.F {
+			if f := t.Struct.Field(id); f != nil {
+				o.F[id] = dedupSets(f.Type, fv)
+			}
+		}
+		return o
+	}
+	return v
 }
 
 // containsStruct: the type is, or holds elements / values that are, a plain struct.
